@@ -196,6 +196,18 @@ pub fn base62(ctx : &Ctx, out : &mut Out)
         let t : String = (0..43).map(|i| if i == 7 { '€' } else { 'b' }).collect();
         strings.push(t);
     }
+    // 43 BYTES with characters outside ASCII whose code point, cut to its low byte, is an ASCII digit or letter
+    // (U+0130 -> '0', U+0141 -> 'A', U+0161 -> 'a', U+4E61 -> 'a', U+4E39 -> '9'): foreign all the same
+    for _ in 0..60
+    {
+        let tricky = ['\u{130}', '\u{141}', '\u{161}', '\u{4e61}', '\u{4e39}', '\u{17a}'];
+        let mut chars : Vec<char> = vec![];
+        let mut bytes = 0usize;
+        let n_tricky = rng.range(1, 3);
+        for _ in 0..n_tricky { let c = *rng.pick(&tricky); bytes += c.len_utf8(); chars.push(c); }
+        while bytes < 43 { chars.push(*rng.pick(&soup[..6])); bytes += 1; }
+        if bytes == 43 { rng.shuffle(&mut chars); strings.push(chars.into_iter().collect()); }
+    }
     // two invalid characters: the first one must be reported
     for _ in 0..100
     {
